@@ -17,7 +17,8 @@ C18 - model of the plugin signer (signer/plugin.go, signer/signer.go, plugin/pro
   GenerateSignature, certificate chain parsing, chain / algorithm validation and self-verification
   of the locally built envelope by notation-core-go.
 
-The cryptographic facts of a scenario are abstract inputs (`sigMode`, `chain`); the JSON payload
+The cryptographic facts of a scenario are abstract inputs (`sigMode`, `chain`, and `sigEnc`: the wire form
+of the signature bytes - fixed r||s / PSS octets, DER SEQUENCE, forged / padded / cut / text); the JSON payload
 is a full AST.  The outcome type keeps a panic distinct from an error.
 -/
 import NotationModel.Basic
@@ -358,6 +359,21 @@ inductive PluginErr | noErr | metadata | describeKey | generate
 `wrongHash` (made with a hash of another size); `emptySig` -/
 inductive SigMode | good | flipped | otherKey | wrongHash | emptySig
   deriving DecidableEq, Repr, FromJson, ToJson
+/-- the WIRE FORM of the signature bytes the plugin answers with (raw path) / puts into its envelope (envelope path).
+The plugin contract and both envelope formats take exactly one form: RSASSA-PSS as the modulus-sized octet string,
+ECDSA as the fixed-size `r || s` (each integer in ceil(keysize / 8) octets: 32 / 48 / 66). `fixed` is that form; every
+other value is the same signature (of `sigMode`), split in two halves `r`, `s`, written another way:
+`der` ASN.1 DER `SEQUENCE { INTEGER r, INTEGER s }` (what key vaults and `ecdsa.SignASN1` answer);
+`derWideR` / `derWideS` that SEQUENCE with `r` / `s` replaced by 2^(8·len): one bit wider than the field;
+`derHuge` `r` replaced by a number of more than twice the signature's bits; `derNegative` `r` negated; `derZero` both 0;
+`derTrailing` a byte after the SEQUENCE; `derTruncated` its last byte missing;
+`padded` a zero octet before each half; `truncated` last octet missing; `extended` a zero octet appended;
+`doubled` the signature twice; `oneByte` its first octet only; `b64` / `hex` the octets as base64 / hex text.
+None of them is a signature as it stands: the verifiers of notation-core-go (JWS and COSE) take the exact length only,
+and the signer hands the plugin's bytes over unchanged. -/
+inductive SigEnc | fixed | der | derWideR | derWideS | derHuge | derNegative | derZero | derTrailing | derTruncated
+  | padded | truncated | extended | doubled | oneByte | b64 | hex
+  deriving DecidableEq, Repr, FromJson, ToJson
 /-- the certificate chain the plugin answers with (raw path) / embeds (envelope path):
 `ok` root→leaf for the plugin's key; `selfSigned` one self-signed leaf for it; `empty`;
 `garbage` (bytes that are no certificate); `otherKey` a valid chain for another key of the same
@@ -426,6 +442,7 @@ structure Input where
   gsAlg : String             -- response.SigningAlgorithm (never read by the code)
   -- both
   sigMode : SigMode
+  sigEnc : SigEnc := .fixed  -- wire form of the signature bytes (every call on the signer value: the plugin's habit)
   chain : Chain
   gen : Gen                  -- SignBlob: the descriptor generator (`req` is the blob's descriptor under the
                              -- digest algorithm that goes with the key spec)
@@ -446,8 +463,9 @@ inductive Outcome | sig | err | panic
 
 structure Obs where
   outcome : Outcome
-  payloadOk : Bool   -- sig: what is returned parses with the parser of the REQUESTED format, is byte for byte what
-                     -- the plugin handed over and was checked, and carries exactly the checked payload bytes
+  payloadOk : Bool   -- sig: what is returned parses with the parser of the REQUESTED format AND VERIFIES under its own
+                     -- chain, is byte for byte what the plugin handed over and was checked (envelope path) / carries the
+                     -- canonical payload of the request (raw path), and carries exactly the checked payload bytes
   leafOk : Bool      -- sig: signerInfo's leaf certificate is the leaf of the plugin's chain
   earlier : List Outcome   -- the outcomes of the earlier calls on the same signer value, in call order
   deriving DecidableEq, Repr, FromJson, ToJson
@@ -532,10 +550,26 @@ def singleDocument (i : Input) : Bool := jsonWs i.lead && jsonWs i.trail
 
 /-- the signature verifies under the leaf of the chain (it was made with the key that leaf
 certifies: the plugin's key under its own chains, or the other key under the other key's
-chain), and core-go accepts the chain -/
+chain), core-go accepts the chain, and the signature bytes are in the one wire form the
+envelope formats take (the signer converts nothing: `pluginPrimitiveSigner.Sign` hands
+`resp.Signature` over as it is) -/
 def verifyOk (i : Input) : Bool :=
-  (i.sigMode == .good && (i.chain == .ok || i.chain == .selfSigned)) ||
-  (i.sigMode == .otherKey && i.chain == .otherKey)
+  ((i.sigMode == .good && (i.chain == .ok || i.chain == .selfSigned)) ||
+   (i.sigMode == .otherKey && i.chain == .otherKey)) && i.sigEnc == .fixed
+
+/-- the bytes still determine the signature octets (a re-encoding without loss: a signer that normalised such an
+answer before building its envelope would hand out an envelope that verifies); the others are forged or mutilated -/
+def SigEnc.lossless : SigEnc → Bool
+  | .fixed | .der | .derTrailing | .padded | .extended | .doubled | .b64 | .hex => true
+  | .derWideR | .derWideS | .derHuge | .derNegative | .derZero | .derTruncated | .truncated | .oneByte => false
+
+/-- what the PROPERTY asks of a raw-signature answer: the plugin answered with a signature made by the key the
+chain's leaf certifies, and the answer still carries it. (The code asks more - `verifyOk`: the fixed wire form -
+because it converts nothing; the property does not forbid a conversion, it forbids returning anything that does not
+verify, and panicking.) -/
+def sigGenuine (i : Input) : Bool :=
+  ((i.sigMode == .good && (i.chain == .ok || i.chain == .selfSigned)) ||
+   (i.sigMode == .otherKey && i.chain == .otherKey)) && i.sigEnc.lossless
 
 /-- key spec of the leaf certificate of the answered chain -/
 def leafSpec (i : Input) : Option Spec :=
@@ -710,7 +744,7 @@ def required (i : Input) : Bool :=
   | .raw =>
     i.dkKeyIdOk && i.gsKeyIdOk &&                       -- answered for the requested key id
     decodeKeySpec i.dkKeySpec == some i.key.spec &&     -- key spec = the key that signed
-    verifyOk i                                          -- chain and signature fit that key
+    sigGenuine i                                        -- chain and signature fit that key
 
 def reqWellFormed (r : Desc) : Bool := nodupB (r.annotations.map (·.1)) && int64Ok r.size
 
